@@ -601,7 +601,7 @@ func init() {
 			v.Nontrivial = v.Stats["canonical-lines"] > 10
 			return v
 		},
-		Rule:        "all bundled .bpmn files (testdata, examples, schema/testdata, model/testdata) + generated definitions: C01 programs (formal conditions in expr and XPath) and 'rich' PRNG definitions with every task kind, boundary events, exclusive/inclusive/parallel/event-based gateways with defaults, formal/informal/per-flow-language conditions, timer/signal/message (with operation) definitions, parallel-multiple catch events, throw events, sub-processes, data objects with bodies, olive task definitions/headers/properties/results/data inputs and outputs, collaborations with participants and message flows; checks: canonical reflective dump unchanged by xml.Marshal, identical after Marshal+Parse (text trimmed, nil ≡ empty, expression kind recorded), every id retrievable by FindBy(ExactId) before and after, and for programs the stepwise engine run on the re-parsed model yields the same pending requests after every step; non-trivial = > 10 canonical lines; distinct = descriptor hash",
+		Rule:        "all bundled .bpmn files (testdata, examples, schema/testdata, model/testdata) + generated definitions: C01 programs (formal conditions in expr and XPath) and 'rich' PRNG definitions with every task kind, boundary events, exclusive/inclusive/parallel/event-based gateways with defaults, formal/informal/per-flow-language conditions, timer/signal/message (with operation) definitions, parallel-multiple catch events, throw events, sub-processes, data objects with bodies, olive task definitions/headers/properties/results/data inputs and outputs, collaborations with participants and message flows; checks: canonical reflective dump unchanged by xml.Marshal, identical after Marshal+Parse (text trimmed, nil ≡ empty, expression kind recorded), every id retrievable by FindBy(ExactId) before and after, and for programs the stepwise engine run on the re-parsed model yields the same pending requests after every step; non-trivial = > 10 canonical lines; distinct = descriptor hash; rich documents carry olive:script (every result type), calledDecision and calledElement",
 		Assumptions: []string{"canonical form trims text payloads and treats nil and empty as equal (the 'whitespace-only text aside' clause)"},
 	})
 }
